@@ -4,9 +4,9 @@ pub mod server;
 pub mod term;
 pub mod value;
 
-pub use server::{harness, import_event, note, phase_mark, serve, stash, stub_enter, stub_ret, Driver, Export, Item};
+pub use server::{emit, harness, import_event, next_policy, note, phase_mark, serve, stash, stub_enter, stub_ret, Driver, Export, Item};
 pub use term::Term;
-pub use value::{release_keep, Build, Show};
+pub use value::{release_keep, Build, Consume, Show};
 
 #[global_allocator]
 static GLOBAL: alloc::Ledger = alloc::Ledger;
